@@ -5,7 +5,7 @@ wt=$1; diff=$2; demo=$3; dir=$4; shift 4
 export GOFLAGS=-mod=mod GOPROXY=off GOSUMDB=off GOTOOLCHAIN=local
 cd "$wt" || exit 2
 git checkout -q -- . ; git clean -fdq
-cp "$demo" "$dir/zz_demo_test.go"
+mkdir -p "$dir"; cp "$demo" "$dir/zz_demo_test.go"
 ( cd "$dir" && go test -gcflags=all=-l -vet=off -count=1 "$@" . >/tmp/confirm_$(basename $wt)_pristine.log 2>&1 ); p=$?
 git apply "$diff" || { echo "PATCH-FAILS"; exit 2; }
 go build ./... || { echo "BUILD-FAILS"; }
